@@ -1,4 +1,5 @@
 import BppModel.Observer
+import BppModel.GraphOrient
 /-
 Round 2 extension of the observer model (BppModel/Observer.lean is left untouched: the tree
 model builds on it).
@@ -181,6 +182,8 @@ inductive WOpX where
   | setRoot (k : Nat) (a : Obj)
   /-- the observed graph is assigned the graph reached by the history `hist` from the empty graph -/
   | graphAssign (d : Bool) (hist : List Op)
+  /-- `orientate()` called on the observed graph -/
+  | orientate
 deriving Repr
 
 namespace World
@@ -191,6 +194,7 @@ def stepX (w : World) : WOpX → World
   | .attach k => (w.attach k).world w
   | .setRoot k a => (w.setRootObj k a).world w
   | .graphAssign d hist => w.graphAssign { (Graph.empty d).run hist with pending := [] }
+  | .orientate => (w.graphOp w.g.orientate).2
 
 def runX (w : World) (ops : List WOpX) : World := ops.foldl stepX w
 end World
